@@ -354,7 +354,7 @@ func runTypecheckedFlag(p *Program, r *RuleResult) {
 				}
 				// a path entry -> store, consistent with v being true, that avoids Typecheck
 				seen := map[*ssa.BasicBlock]bool{}
-				
+
 				var walk func(b *ssa.BasicBlock) bool
 				walk = func(b *ssa.BasicBlock) bool {
 					if seen[b] {
